@@ -3,6 +3,7 @@
    the hand-written model Writer.v, under the representation invariant RInv of the Rust data.
    An edit of the guard order, of a guard, of a state update or of a match arm of these
    functions changes the generated definition and one of these proofs stops compiling. *)
+From MLA Require Import Limit.
 From MLA Require Import Base Stream Blocks Writer.
 From MLAGen Require Src2.
 From Coq Require Import ZifyBool ZifyNat ZifyN.
@@ -68,6 +69,7 @@ Lemma smap_contains_name_used {V} (m : list (bytes * V)) n :
 Proof. reflexivity. Qed.
 
 Section TieWriter.
+  Context {LIM : Limit}.
   Variable FNMAX : N.
   Variables T_START T_CONTENT T_EOA T_EOF : N.
   Variable H : bytes -> bytes.
@@ -105,8 +107,15 @@ Section TieWriter.
   Definition resu_short (r : res unit) : res N :=
     match r with Ok _ => Ok 0 | Err EUnexpectedEof => Err EShortSource | Err e => Err e | Crash c => Crash c end.
 
+  (* ArchiveFooter::serialize_into as the primitive of Src2.finalize: the three outcomes of the
+     translated function (SrcTie3Reader.footer_serialize_into_src: Src3d.footer_serialize_into IS
+     this when the join succeeds -- SrcTie3Footer.footer_ser_src, under the invariant FInv): bincode
+     limit (nothing written), u32 length (map written), success *)
   Definition footer_ser (d : bytes) (fi : list (bytes * N)) (ii : list (N * Src2.FileInfo)) : bytes * res unit :=
-    (d ++ ser_footer (order (w_footer (mkW [] false [] fi (absIds ii) 0 0))), Ok tt).
+    let fm := ser_footer_map (order (w_footer (mkW [] false [] fi (absIds ii) 0 0))) in
+    if lim <? len fm then (d, Err EDeser)
+    else if 2 ^ 32 <=? len fm then (d ++ fm, Err EDeser)
+    else (d ++ ser_footer (order (w_footer (mkW [] false [] fi (absIds ii) 0 0))), Ok tt).
 
   Notation g_dump := (Src2.dump FNMAX T_START T_CONTENT T_EOA T_EOF).
   Notation g_start := (Src2.start_file FNMAX T_START T_CONTENT T_EOA T_EOF).
@@ -351,7 +360,20 @@ Section TieWriter.
     replace (w_open (absW s)) with hashes by (unfold absW; cbn [w_open]; now rewrite Est).
     rewrite Hids. destruct hashes as [|[k0 h0] rest]; cbn [map Src2.is_empty negb orb fst].
     2:{ cbn [fst snd]. split; [reflexivity | split; [reflexivity | exact HR]]. }
-    rewrite dump_end. projs. cbn [Src2.bindS]. unfold footer_ser. projs. cbn [Src2.bindS fst snd resu].
+    rewrite dump_end. projs. cbn [Src2.bindS]. unfold footer_ser. projs. cbv zeta.
+    assert (Hfo : w_footer (mkW [] false [] (Src2.files_info s) (absIds (Src2.ids_info s)) 0 0) = w_footer (absW s))
+      by (unfold w_footer, absW; reflexivity).
+    rewrite Hfo.
+    destruct (lim <? len (ser_footer_map (order (w_footer (absW s))))).
+    { cbn [Src2.bindS fst snd resu]. split; [|split; [reflexivity|]].
+      - unfold absW, w_finalized. projs. cbn [w_out w_files w_ids w_next w_cur]. reflexivity.
+      - unfold RInv. projs. split; [exact I | exact Hlt]. }
+    destruct (2 ^ 32 <=? len (ser_footer_map (order (w_footer (absW s))))).
+    { cbn [Src2.bindS fst snd resu]. split; [|split; [reflexivity|]].
+      - unfold absW, w_finalized. projs. cbn [w_out w_files w_ids w_next w_cur]. unfold w_footer. cbn [w_ids w_files].
+        now rewrite <- app_assoc.
+      - unfold RInv. projs. split; [exact I | exact Hlt]. }
+    cbn [Src2.bindS fst snd resu].
     split; [|split; [reflexivity|]].
     - unfold absW. projs. cbn [w_out w_files w_ids w_next w_cur]. unfold w_footer. cbn [w_ids w_files].
       now rewrite <- app_assoc.
